@@ -665,6 +665,7 @@ class Engine:
             except BreakSig:
                 frame.env.pop(kname, None)
                 return
+            self._same_kinds(frame, pre_env, mod, text)
             self.check_invariant(frame, lc, inv, k + 1, seq, "step", text)
             raise PathEnd()
         else:
@@ -701,6 +702,7 @@ class Engine:
                 pass
             except BreakSig:
                 return
+            self._same_kinds(frame, pre_env, mod, text)
             self.check_invariant(frame, lc, inv, None, None, "step", text)
             if dec is not None:
                 after = self.spec_eval(dec, frame, {})
@@ -711,6 +713,18 @@ class Engine:
             raise PathEnd()
         else:
             self.assume(z3.Not(ct))
+
+    def _same_kinds(self, frame, pre_env, names, text):
+        """the loop head assumes each modified variable has the kind (int, float, str, list, ...) it had
+        before the loop; a body that changes the kind is outside that assumption"""
+        for n in names:
+            a, b = pre_env.get(n), frame.env.get(n)
+            if a is None or b is None:
+                continue
+            ka, kb = type(a), type(b)
+            if ka is not kb and not (isinstance(a, (VObj, VNone)) or isinstance(b, (VObj,))):
+                raise Unsupported("%s: variable %r changes kind in the loop body (%s -> %s): split the type case" % (
+                    text, n, ka.__name__, kb.__name__))
 
     def havoc(self, frame, names, lc, pre_env, tnames, body=()):
         for n in self.mutated_names(body):
